@@ -5,6 +5,7 @@ import (
 	"math/big"
 	"strconv"
 	"strings"
+	"unicode/utf8"
 
 	parser "github.com/formancehq/numscript/internal/parser/antlr"
 	"github.com/formancehq/numscript/internal/utils"
@@ -31,7 +32,7 @@ type ErrorListener struct {
 func (l *ErrorListener) SyntaxError(recognizer antlr.Recognizer, offendingSymbol interface{}, startL, startC int, msg string, e antlr.RecognitionException) {
 	length := 1
 	if token, ok := offendingSymbol.(antlr.Token); ok {
-		length = len(token.GetText())
+		length = utf8.RuneCountInString(token.GetText())
 	}
 	endL := startL
 	endC := startC + length - 1 // -1 so that end character is inside the offending token
@@ -638,7 +639,7 @@ func ctxToRange(ctx antlr.ParserRuleContext) Range {
 			Line: endTk.GetLine() - 1,
 
 			// this is based on the assumption that a token cannot span multiple lines
-			Character: endTk.GetColumn() + len(endTk.GetText()),
+			Character: endTk.GetColumn() + utf8.RuneCountInString(endTk.GetText()),
 		},
 	}
 }
@@ -651,7 +652,7 @@ func tokenToRange(tk antlr.Token) Range {
 		},
 		End: Position{
 			Line:      tk.GetLine() - 1,
-			Character: tk.GetColumn() + len(tk.GetText()),
+			Character: tk.GetColumn() + utf8.RuneCountInString(tk.GetText()),
 		},
 	}
 }
